@@ -74,15 +74,21 @@ func c12In(items []c12Item, a netip.Addr) bool {
 }
 
 type c12Case struct {
-	Kind   string // allow | deny
-	Items  []c12Item
-	Remote string   // RemoteAddr host part
-	XFF    []string // X-Forwarded-For header values (each may hold a comma list)
+	Kind       string // allow | deny
+	Items      []c12Item
+	Remote     string   // RemoteAddr host part
+	XFF        []string // X-Forwarded-For header values (each may hold a comma list)
+	Extra      string   // another option on the same route
+	ExtraFirst bool
 }
 
 func genC12(r *rand.Rand) *c12Case {
 	cs := &c12Case{Kind: choose(r, []string{"allow", "deny"})}
 	cs.Items = genC12Items(r, r.Intn(3) == 0)
+	if r.Intn(4) == 0 {
+		cs.Extra = choose(r, []string{"strip=/x", "proto=http", "redirect=200", "redirect=301x", "redirect=", "redirect=999", "tlsskipverify=true", "weight=abc", "host=dst", "unknownoption=1", "auth=nosuch"})
+		cs.ExtraFirst = r.Intn(2) == 0
+	}
 	cs.Remote = choose(r, c12Addrs)
 	if r.Intn(8) == 0 && strings.Contains(cs.Remote, ":") && !strings.Contains(cs.Remote, ".") {
 		cs.Remote += "%" + choose(r, []string{"eth0", "1", "lo"})
@@ -139,7 +145,15 @@ func c12Decision(c *ctx) {
 		if strings.Join(texts, ",") == "" {
 			return // 'allow=' without a value configures no rule at all (not a rule that cannot be parsed)
 		}
-		script := fmt.Sprintf("route add svc acl.test/ http://10.0.0.9:80/ opts \"%s=%s\"", cs.Kind, strings.Join(texts, ","))
+		// other options next to the rule, well-formed or not, must not make the rule vanish
+		extra := ""
+		if cs.Extra != "" {
+			extra = " " + cs.Extra
+		}
+		script := fmt.Sprintf("route add svc acl.test/ http://10.0.0.9:80/ opts \"%s=%s%s\"", cs.Kind, strings.Join(texts, ","), extra)
+		if cs.ExtraFirst && cs.Extra != "" {
+			script = fmt.Sprintf("route add svc acl.test/ http://10.0.0.9:80/ opts \"%s %s=%s\"", cs.Extra, cs.Kind, strings.Join(texts, ","))
+		}
 		t, err := newTable(script)
 		if err != nil {
 			c.R.Violate("c12:table", err.Error(), in)
@@ -340,4 +354,83 @@ func c12Auth(c *ctx) {
 	}
 	c.R.Count("auth_decisions", int64(n))
 	_ = http.StatusOK
+	c12AuthReload(c, dir)
+}
+
+// c12AuthReload: a scheme with refresh: the htpasswd file is replaced at run time (edited in place, renamed over with an
+// older modification time as cp -p / rsync -t / a restore from backup do, removed, restored); after a few refresh periods
+// the decisions must follow the file as it is now.
+func c12AuthReload(c *ctx, dir string) {
+	file := filepath.Join(dir, "users-reload")
+	write := func(content string, mtime time.Time) {
+		tmp := file + ".tmp"
+		os.WriteFile(tmp, []byte(content), 0o600)
+		if !mtime.IsZero() {
+			os.Chtimes(tmp, mtime, mtime)
+		}
+		os.Rename(tmp, file)
+	}
+	write("alice:pw1\nbob:pw2\n", time.Time{})
+	schemes, err := auth.LoadAuthSchemes(map[string]config.AuthScheme{"rl": {Name: "rl", Type: "basic", Basic: config.BasicAuth{Realm: "r", File: file, Refresh: 100 * time.Millisecond}}})
+	if err != nil {
+		c.R.Inconcl("LoadAuthSchemes (refresh): %v", err)
+		return
+	}
+	t, err := newTable(`route add svc a.test/ http://10.0.0.9:80/ opts "auth=rl"`)
+	if err != nil {
+		c.R.Inconcl("table: %v", err)
+		return
+	}
+	tg := t["a.test"][0].Targets[0]
+	ok := func(user, pass string) bool {
+		req := httptest.NewRequest("GET", "http://a.test/", nil)
+		req.SetBasicAuth(user, pass)
+		return tg.Authorized(req, httptest.NewRecorder(), schemes)
+	}
+	type step struct {
+		desc    string
+		content string
+		mtime   time.Time
+		remove  bool
+		want    map[string]bool // "user:pass" -> accepted
+	}
+	past := time.Now().Add(-24 * time.Hour)
+	steps := []step{
+		{"initial file", "", time.Time{}, false, map[string]bool{"alice:pw1": true, "bob:pw2": true, "bob:x": false}},
+		{"bob revoked, file renamed over with an mtime 24h in the past", "alice:pw1\n", past, false, map[string]bool{"alice:pw1": true, "bob:pw2": false}},
+		{"alice's password changed, mtime older still", "alice:new\n", past.Add(-time.Hour), false, map[string]bool{"alice:new": true, "alice:pw1": false, "bob:pw2": false}},
+		{"file removed", "", time.Time{}, true, map[string]bool{"alice:new": false, "alice:pw1": false}},
+		{"file restored with a current mtime", "carol:pw3\n", time.Time{}, false, map[string]bool{"carol:pw3": true, "alice:new": false}},
+	}
+	for i, st := range steps {
+		if i > 0 {
+			if st.remove {
+				os.Remove(file)
+			} else {
+				write(st.content, st.mtime)
+			}
+		}
+		// bounded progress: 20 refresh periods
+		var wrong string
+		for try := 0; try < 40; try++ {
+			wrong = ""
+			for cred, want := range st.want {
+				up := strings.SplitN(cred, ":", 2)
+				if got := ok(up[0], up[1]); got != want {
+					wrong = fmt.Sprintf("%s accepted=%v want %v", cred, got, want)
+				}
+			}
+			if wrong == "" {
+				break
+			}
+			time.Sleep(50 * time.Millisecond)
+		}
+		c.R.Eval(1)
+		c.R.Nontrivial("auth-reload " + st.desc)
+		if wrong != "" {
+			c.R.Violate("c12:auth:credentials-do-not-follow-the-file", fmt.Sprintf("htpasswd scheme with refresh=100ms, step %q: 2s later %s", st.desc, wrong), map[string]any{"step": st.desc})
+			return
+		}
+	}
+	c.R.Count("auth_reload_steps", int64(len(steps)))
 }
